@@ -125,6 +125,8 @@ def main():
         "engines": [
             {"name": "pbt", "path": "/verif/harness", "serves_properties": sorted(CHECKS),
              "kind_free_text": "Rust binary: proptest strategies run through explicit TestRunners (fixed seed from VERIF_SEED, no persistence), exhaustive enumerators for finite domains, independent reference models as oracles, shrinking to replay files"},
+            {"name": "libfuzzer", "path": "/verif/fuzz", "serves_properties": ["C10", "C11", "C12", "C15", "C16"],
+             "kind_free_text": "cargo-fuzz / libFuzzer targets (rfc3339, rfc2822, strftime, parse_any, tzif) that decode bytes into the same structured cases and call the same oracles as the pbt sub-checks; run by the thorough tier with fixed -runs and -seed, 16 jobs; crash artifacts are converted into replay files and re-checked through pbt replay"},
         ],
         "checks": checks,
         "not_applicable": na,
